@@ -32,6 +32,10 @@ chk("C08","CONSNET","exploration","exhaustive boundary-value and byte-level inpu
     "All nine consensus message types with every exported field set in turn to every boundary value (also re-signed by the Byzantine validator where it is the legitimate signer), every valid message on every wrong channel, every single-byte substitution and truncation of every valid encoding and every 1-byte (thorough: 2-byte) string on every channel are fed to a real node in each of eight consensus states; a panic on the consensus goroutine is a violation, a message that fails validation must leave the round state exactly as it was, and the node must still finish the next height.",
     "Covers what reaches the consensus goroutine (part i). Gossip-goroutine poisoning through peer state, block-sync, mempool and pex channels are not driven by this check (see DESIGN).")
 
+chk("C15","XSTATE","model_checking","breadth-first explicit-state search over vote/claim streams on the real VoteSet and HeightVoteSet against a reference tally; canonical-state merging with a tested merge argument",
+    "Every stream of up to 4 (quick) / 5-6 (thorough) letters (valid votes for A/B/nil, wrong signer, wrong address, out-of-range index, wrong round/type/height, peer majority claims) over 8 validator sets up to the int64 overflow boundary is applied to the real VoteSet (and through HeightVoteSet); after every letter majority, 2/3-any, has-all, bit arrays and AddVote's verdict must equal the reference, a reported majority never changes, and MakeCommit must pass VerifyCommit while every single-vote tampering fails it.",
+    "At most 4 validators; stream length as reported in the evidence; collision-free hashes/signatures.")
+
 NOT_YET = "check not built yet in this round (planned in DESIGN.md §5); not claimed until its quick check passes on the unchanged tree"
 props=[json.loads(l)['id'] for l in open('/verif/properties.jsonl')]
 m={"version":1,
